@@ -28,7 +28,7 @@ CLAIMED.update({
         "technique": "Coq proof: record-level computation that RUN overwrites every non-persistent field before reading it; differential correspondence + fresh-vs-history oracle",
     },
     "C11": {
-        "text": "Coq theorems (closed under the global context): from ANY idle model state a numbered edit returns Ok and leaves breakpoint, stack, loops, functions, data cursor empty, cursor on the empty immediate line, variables/arrays/generator/pending reply/output unchanged (C11_edit); CONT then fails with CAN'T CONTINUE (C11_cont); a rejected edit returns the tokenization error, changes none of those, and is invisible to every later line entry (C11_rejected). RETURN/NEXT/FN/READ probes are exercised on the implementation by the oracle.",
+        "text": "Coq theorems (closed under the global context): from ANY idle model state a numbered edit returns Ok and leaves breakpoint, stack, loops, functions, data cursor empty, cursor on the empty immediate line, variables/arrays/generator/pending reply/output unchanged (C11_edit); CONT then fails with CAN'T CONTINUE (C11_cont); a rejected edit returns the tokenization error, changes none of those, and is invisible to every later line entry (C11_rejected). The other probes are theorems too (C11_probes, Proofs/EditProbes.v), for every successful edit from every idle state: ANY immediate line (any text that is no command, has no line number and tokenizes) starting with RETURN fails with RETURN WITHOUT GOSUB; any starting with NEXT w (w holding a number) fails with NEXT WITHOUT FOR, variables untouched; no name is a user-defined function any more; the next READ yields what it yields in any state holding the same program with no data cursor, a fresh one included. The same probes are exercised on the implementation by the oracle.",
         "design_ref": "DESIGN.md 6 C11",
         "note": NOTE,
         "technique": "Coq proof: symbolic evaluation of the edit path on an arbitrary state; differential correspondence + probe oracle at random suspension points",
